@@ -10,6 +10,10 @@ and all addresses / denoms / proposal ids.
 * sanction rule: `isSanctioned_spec`, `isSanctioned_spec_reachable`, `checker_rule_iff`,
   `passed_messages_take_effect`, `immediate_entries_take_effect`,
   `status_changes_only_by_governance`
+* immediate entries and the deposit threshold (every denom of the immediate min deposit must
+  be reached): `threshold_test_is_per_denom`, `deposit_short_in_one_denom_does_not_reach`,
+  `hook_creates_only_reached_entries`, `hook_creates_all_reached_entries`,
+  `new_temp_entry_needs_reaching_deposit`, `accepted_deposit_creates_reached_entries`
 * protected accounts: `unsanctionable_never_sanctioned`
 * temporary entries follow the proposal: `temp_entries_live_or_cancelled`,
   `no_temp_after_passed_rejected_failed`, `no_temp_after_expired`, `index_mirrors_temp`
@@ -25,6 +29,7 @@ and all addresses / denoms / proposal ids.
   `sanctioned_balance_nondecreasing_history`, `credit_to_sanctioned_succeeds`
 -/
 import PvProofs.Lemmas.SancBal
+import PvProofs.Lemmas.SancThreshold
 import PvProofs.Lemmas.SancKeys
 
 namespace PvProofs.C06
@@ -264,6 +269,153 @@ theorem status_changes_only_by_governance (s : State) (op : Op) (h : isGovStep o
         subst hs
         exact ⟨rfl, rfl⟩
   exact ⟨key.1, fun a => by rw [key.1, key.2]⟩
+/-! ### 1b. immediate entries and the deposit threshold
+
+A proposal acts before it passes only through the gov hook, and only when its total deposit
+reaches the immediate min deposit of the kind of message: the parameter is not zero and EVERY
+denom of it is reached (`Spec.Reaches`); a deposit that covers some of the denoms only does
+not count. -/
+
+/-- The threshold test of the hook (gov_hooks.go:69-76: `!minDeposit.IsZero()` and
+`deposit.SafeSub(minDeposit...)` without a negative coin) and the function the run-time checker
+evaluates on dumps are both the documented per-denom rule. -/
+theorem threshold_test_is_per_denom (total m : Coins) :
+    (Sanc.reachesMin total m = true ↔ Reaches total m) ∧ (Spec.reaches total m = true ↔ Reaches total m) :=
+  ⟨reachesMin_iff total m, reaches_iff total m⟩
+
+/-- A total deposit that is short in ONE denom of the immediate min deposit does not reach it,
+however much it holds of the other denoms. -/
+theorem deposit_short_in_one_denom_does_not_reach (total m : Coins) (d : Denom) (hd : d ∈ Coins.denoms m)
+    (hshort : Coins.amountOf total d < Coins.amountOf m d) :
+    Sanc.reachesMin total m = false ∧ Spec.reaches total m = false := by
+  have hno : ¬ Reaches total m := fun h => absurd (h.2 d hd) (by omega)
+  constructor
+  · cases h : Sanc.reachesMin total m
+    · rfl
+    · exact absurd ((reachesMin_iff total m).1 h) hno
+  · cases h : Spec.reaches total m
+    · rfl
+    · exact absurd ((reaches_iff total m).1 h) hno
+
+/-- The gov hook (gov_hooks.go:53, called after submission, after every deposit, at the end of
+the voting period and when the deposit period expires) creates a temporary entry only for an
+address of a message of a proposal in its deposit or voting period whose total deposit reaches
+the immediate min deposit of that kind of message; it never changes the parameters. -/
+theorem hook_creates_only_reached_entries (c : Cfg) (st st' : Store) (prop : Option Proposal) (id : Nat)
+    (hok : StoreOK c st) (hne : ∀ p, prop = some p → ∀ m ∈ p.msgs, ∀ a ∈ m.addrs, a ≠ "")
+    (hs : proposalGovHook c st prop id = .ok st') :
+    st'.sancMin = st.sancMin ∧ st'.unsancMin = st.unsancMin ∧
+    ∀ e ∈ st'.temp, e ∈ st.temp ∨
+      (e.id = id ∧ ∃ p, prop = some p ∧ p.active = true ∧ ∃ m ∈ p.msgs, m.isSanction = e.val ∧ e.addr ∈ m.addrs ∧
+        Reaches p.total (if e.val then st.sancMin else st.unsancMin)) := by
+  obtain ⟨k1, k2, k3⟩ := hook_new hok hne hs
+  refine ⟨k1, k2, fun e he => (k3 e he).imp (fun x => x) ?_⟩
+  rintro ⟨hid, p, hp, hact, m, hm, hv, hmem, hr⟩
+  refine ⟨hid, p, hp, hact, m, hm, hv, hmem, ?_⟩
+  have := (reachesMin_iff _ _).1 hr
+  rw [hv] at this
+  exact this
+
+/-- … and it creates all of them: for a proposal in its deposit or voting period, every address
+named by a message whose threshold the total deposit reaches has afterwards the entry of the
+last such message naming it. -/
+theorem hook_creates_all_reached_entries (c : Cfg) (st st' : Store) (p : Proposal) (id : Nat) (a : Addr) (v : Bool)
+    (hok : StoreOK c st) (hne : ∀ m ∈ p.msgs, ∀ a ∈ m.addrs, a ≠ "") (hact : p.active = true)
+    (hs : proposalGovHook c st (some p) id = .ok st')
+    (hl : lastReached (fun m => Spec.reaches p.total (if m.isSanction then st.sancMin else st.unsancMin)) a p.msgs
+      = some v) :
+    (⟨a, id, v⟩ : TempEntry) ∈ st'.temp := by
+  apply hook_present hok hne hact hs
+  have hf : (fun m : PMsg => Spec.reaches p.total (if m.isSanction then st.sancMin else st.unsancMin)) =
+      (fun m : PMsg => Sanc.reachesMin p.total (immediateMin st m.isSanction)) := by
+    funext m; rw [reaches_eq_reachesMin]; rfl
+  rw [← hf]; exact hl
+
+/-- For every history and every further operation (the end-blocker with all its expiries and
+tallies included): a temporary entry that was not there before the operation belongs to a
+stored proposal in its deposit or voting period whose total deposit reaches — in every denom —
+the immediate min deposit of the entry's kind.  (The run-time checker evaluates exactly this
+on two consecutive dumps: `Spec.newEntryJustified`.) -/
+theorem new_temp_entry_needs_reaching_deposit (cfg : Cfg) (ops : List Op) (op : Op) :
+    let s := run (init cfg) ops
+    ∀ e ∈ (step s op).st.temp, e ∈ s.st.temp ∨
+      ∃ p ∈ (step s op).props, p.id = e.id ∧ p.active = true ∧
+        Reaches p.total (if e.val then (step s op).st.sancMin else (step s op).st.unsancMin) := by
+  intro s
+  obtain ⟨hi, _, _⟩ := run_inv ops (inv_init cfg)
+  have concl : ∀ s' : State, NewOK s s' → ∀ e ∈ s'.st.temp, e ∈ s.st.temp ∨
+      ∃ p ∈ s'.props, p.id = e.id ∧ p.active = true ∧
+        Reaches p.total (if e.val then s'.st.sancMin else s'.st.unsancMin) := by
+    intro s' hn e he
+    refine (hn.2.2 e he).imp (fun x => x) ?_
+    rintro ⟨p, hp, hid, hact, hr⟩
+    exact ⟨p, hp, hid, hact, (reachesMin_iff _ _).1 hr⟩
+  by_cases hg : isGovStep op = false
+  · intro e he
+    rw [(status_changes_only_by_governance s op hg).1] at he
+    exact Or.inl he
+  · unfold step
+    cases hs : applyOp s op with
+    | error e => exact fun e he => Or.inl he
+    | ok s' =>
+      cases op with
+      | submit who msgs initial exp => exact concl s' (submitProposal_newOK hi hs)
+      | deposit who id amt =>
+        simp only [applyOp] at hs
+        split_ifs at hs
+        exact concl s' (addDeposit_newOK hi hs)
+      | block dt =>
+        simp only [applyOp] at hs
+        cases he : endBlocker s with
+        | error e => simp [he] at hs
+        | ok s1 =>
+          simp only [he, Except.ok.injEq] at hs
+          subst hs
+          exact concl s1 (endBlocker_newOK hi he)
+      | params a b =>
+        simp only [applyOp, updateParams] at hs
+        split_ifs at hs
+        simp only [Except.ok.injEq] at hs
+        subst hs
+        exact fun e he => Or.inl he
+      | msg m =>
+        simp only [applyOp] at hs
+        cases hm : msgSanction s.cfg s.st m with
+        | error e => simp [hm] at hs
+        | ok st =>
+          simp only [hm, Except.ok.injEq] at hs
+          subst hs
+          exact fun e he => Or.inl ((msgSanction_ok hi.store hm).2 e he).1
+      | vote id v => simp [isGovStep] at hg
+      | cancel who id => simp [isGovStep] at hg
+      | send f t amt => simp [isGovStep] at hg
+      | msend f ts amt => simp [isGovStep] at hg
+      | delegate who amt => simp [isGovStep] at hg
+      | tomod who amt => simp [isGovStep] at hg
+      | fund who amt => simp [isGovStep] at hg
+
+/-- For every history: after an accepted deposit (`MsgDeposit`, or the initial deposit of an
+accepted `MsgSubmitProposal`, whose proposal gets the id `nextId`) the proposal is stored and
+every address named by a message whose threshold its total deposit now reaches has the entry of
+the last such message.  (`Spec.reachedEntriesPresent` on the dump after the operation.) -/
+theorem accepted_deposit_creates_reached_entries (cfg : Cfg) (ops : List Op) (s' : State) :
+    let s := run (init cfg) ops
+    let concl := fun (id : Nat) => ∃ p ∈ s'.props, p.id = id ∧ ∀ a v,
+      lastReached (fun m => Spec.reaches p.total (if m.isSanction then s'.st.sancMin else s'.st.unsancMin)) a p.msgs
+        = some v → (⟨a, id, v⟩ : TempEntry) ∈ s'.st.temp
+    (∀ who id amt, applyOp s (.deposit who id amt) = .ok s' → concl id) ∧
+    (∀ who msgs initial exp, applyOp s (.submit who msgs initial exp) = .ok s' → concl s.nextId) := by
+  intro s concl
+  obtain ⟨hi, _, _⟩ := run_inv ops (inv_init cfg)
+  constructor
+  · intro who id amt hs
+    simp only [applyOp] at hs
+    split_ifs at hs
+    exact addDeposit_present hi hs
+  · intro who msgs initial exp hs
+    obtain ⟨mid, hmid, _, hd⟩ := submitProposal_mid hi hs
+    exact addDeposit_present hmid hd
+
 /-! ### 2. protected accounts -/
 
 /-- In every reachable state an unsanctionable (protected module) account is not sanctioned,
@@ -548,6 +700,28 @@ example :
     let ops : List Op := witnessOps.take 3 ++ [.deposit "A" 1 [("stake", 400)], .block 100, .block 0]
     let s := run (init witnessCfg) ops
     (∀ op ∈ ops, isCancel op = false) ∧ (s.props.map (·.status)) = [PStatus.rejected] ∧ s.st.temp = [] := by
+  decide
+
+/-- two deposit denoms, a two-denom immediate threshold -/
+def multiCfg : Cfg :=
+  { unsanctionable := ["GOV"], minDeposit := [("hash", 400), ("stake", 1000)], expMinDeposit := [("hash", 800), ("stake", 2000)],
+    initMin := [("hash", 40), ("stake", 100)], initMinExp := [("hash", 80), ("stake", 200)],
+    depMin := [("hash", 4), ("stake", 10)], depMinExp := [("hash", 8), ("stake", 20)] }
+
+/-- `new_temp_entry_needs_reaching_deposit` / `accepted_deposit_creates_reached_entries` are not
+vacuous, on the boundary the per-denom rule draws: with the immediate min deposit
+`500hash,1000stake` a total of `40hash,5000stake` (far above in one denom, short in the
+other) creates nothing; completing the other denom to exactly 500 creates the entry. -/
+example :
+    let ops : List Op :=
+      [ .fund "A" [("hash", 1000), ("stake", 9000)],
+        .params [("hash", 500), ("stake", 1000)] [],
+        .submit "A" [⟨true, true, ["B"]⟩] [("hash", 40), ("stake", 5000)] false ]
+    let s := run (init multiCfg) ops
+    s.st.temp = [] ∧ (s.props.map (·.id)) = [1] ∧
+      (step s (.deposit "A" 1 [("hash", 459)])).st.temp = [] ∧
+      (step s (.deposit "A" 1 [("hash", 460)])).st.temp = [⟨"B", 1, true⟩] ∧
+      isSanctionedAddr multiCfg (step s (.deposit "A" 1 [("hash", 460)])).st "B" = true := by
   decide
 
 end PvProofs.C06
